@@ -25,11 +25,21 @@ case $cmd in
    git -C /repo worktree remove --force $wt; rm -f /tmp/mw/$id.junit.xml /tmp/mw/$id.pytest.log
    ;;
  detect)
+   # default: a scratch worktree + VERIF_REPO (does not disturb /repo, several can run at once);
+   # with INPLACE=1 exactly as the brief describes: git -C /repo apply ; ./check ; git -C /repo checkout -- .
    prop=$3; tier=${4:-quick}
-   git -C /repo diff --quiet || { echo "/repo dirty"; exit 2; }
-   git -C /repo apply $S/patch.diff || { echo "PATCH-DOES-NOT-APPLY"; exit 3; }
-   (cd /verif && ./check $prop --tier $tier > $S/detect_${prop}_$tier.log 2>&1); rc=$?
-   git -C /repo checkout -- .
+   if [ "${INPLACE:-0}" = "1" ]; then
+     git -C /repo diff --quiet || { echo "/repo dirty"; exit 2; }
+     git -C /repo apply $S/patch.diff || { echo "PATCH-DOES-NOT-APPLY"; exit 3; }
+     (cd /verif && ./check $prop --tier $tier > $S/detect_${prop}_$tier.log 2>&1); rc=$?
+     git -C /repo checkout -- .
+   else
+     wt=/tmp/mw/det_${id}_$prop; rm -rf $wt; git -C /repo worktree prune
+     git -C /repo worktree add --detach $wt HEAD >/dev/null 2>&1 || { echo "worktree failed"; exit 2; }
+     git -C $wt apply $S/patch.diff || { echo "PATCH-DOES-NOT-APPLY"; git -C /repo worktree remove --force $wt; exit 3; }
+     (cd /verif && VERIF_REPO=$wt ./check $prop --tier $tier > $S/detect_${prop}_$tier.log 2>&1); rc=$?
+     git -C /repo worktree remove --force $wt
+   fi
    echo "check $prop ($tier) rc=$rc; violations: $(grep -c '^VIOLATION' $S/detect_${prop}_$tier.log)"
    grep -A2 '^VIOLATION' $S/detect_${prop}_$tier.log | cut -c1-300 | head -9
    grep 'MACHINERY' -A5 $S/detect_${prop}_$tier.log | head -8
